@@ -566,6 +566,55 @@ func okMethodSound(c *Ctx, f *ssa.Function) (bool, string) {
 	}
 	// slice receiver
 	fi := c.info(f)
+	if len(fi.loops) == 0 && len(rets) == 1 {
+		// !slices.ContainsFunc(recv, notOk)  /  slices.IndexFunc(recv, notOk) < 0
+		v, pol := normCond(rets[0].Results[0], true)
+		var call *ssa.Call
+		if bo, ok := v.(*ssa.BinOp); ok {
+			if cl, ok := bo.X.(*ssa.Call); ok && strings.HasPrefix(calleeName(cl.Common()), "slices.IndexFunc") {
+				if n, isC := constInt(bo.Y); isC && ((bo.Op == token.LSS && n == 0) || (bo.Op == token.EQL && n == -1)) && pol {
+					call = cl
+					pol = false
+				}
+			}
+		} else if cl, ok := v.(*ssa.Call); ok && strings.HasPrefix(calleeName(cl.Common()), "slices.ContainsFunc") {
+			call = cl
+		}
+		if call != nil && !pol && len(call.Common().Args) == 2 && sameOrigins(call.Common().Args[0], recv) {
+			var pred *ssa.Function
+			for _, o := range origins(call.Common().Args[1]) {
+				switch x := o.(type) {
+				case *ssa.Function:
+					pred = x
+				case *ssa.MakeClosure:
+					pred = x.Fn.(*ssa.Function)
+				}
+			}
+			if pred != nil && len(pred.Params) == 1 {
+				okPred := true
+				for _, pr := range returnsOf(pred) {
+					pv, ppol := normCond(pr.Results[0], true)
+					isNotOk := false
+					if cl, ok := pv.(*ssa.Call); ok && !ppol {
+						if cf := cl.Common().StaticCallee(); cf != nil && cf.Name() == "Ok" && inModule(cf) && sameOrigins(cl.Common().Args[0], pred.Params[0]) {
+							isNotOk = true
+						}
+					}
+					if bo, ok := pv.(*ssa.BinOp); ok && ppol && bo.Op == token.NEQ {
+						if n, isC := constInt(bo.Y); isC && n == 0 && loadedField(bo.X) == "shell.Result.Status" {
+							isNotOk = true
+						}
+					}
+					if !isNotOk {
+						okPred = false
+					}
+				}
+				if okPred {
+					return true, "no element satisfies 'not Ok' (slices.ContainsFunc / IndexFunc over the whole collection)"
+				}
+			}
+		}
+	}
 	if len(fi.loops) != 1 {
 		return false, "Ok of a collection is not a single loop"
 	}
